@@ -300,7 +300,8 @@ impl C18 {
     /// (c) worker-pool sizes
     fn pools(&self, q: bool, findings: &Findings, scratch: &std::path::Path) -> Result<u64, String> {
         let exe = crate::explore::self_exe()?;
-        let sizes = [1usize, 2, 4, 16];
+        // the property names {1,2,4,16}; the thorough tier adds the sizes in between
+        let sizes: Vec<usize> = if q { vec![1, 2, 4, 16] } else { vec![1, 2, 3, 4, 5, 6, 8, 16] };
         let dir = scratch.join(format!("c18-{}", std::process::id()));
         std::fs::create_dir_all(&dir).map_err(|e| e.to_string())?;
         let tier = if q { "quick" } else { "thorough" };
@@ -481,7 +482,7 @@ impl Prop for C18 {
         ev.set("exhaustive", json!(true));
         ev.set("evaluations", json!(n2 + n3 + schedules + npool + nrelock));
         ev.set("distinct_nontrivial", json!(n2 + n3 + shapes));
-        ev.set("rule", json!("(a) loom explores every schedule with at most P preemptions (3 quick / 4 thorough) of pmtree's real batch_insert / batch_recalculate (source copied from the registry, std::sync -> loom::sync, rayon::join -> loom threads) for every (depth <= 2, start, length, empty/prefilled tree): root and all leaves must equal the sequential reference on every schedule, no deadlock; (b) baton scheduler: K real threads on one shared Arc<RLN>, exactly one runnable at a time, hand-over at API-call boundaries; all assignments of calls x all interleavings (2 threads x 2 calls over 6 (quick) / 8 (thorough) calls; thorough also 3 threads x 2 calls over 3 calls): each call must return what it returns alone, which must equal the reference; (c) the same workload in subprocesses with RAYON_NUM_THREADS in {1,2,4,16}: batch roots, witnesses, public values and verdicts bit-identical and equal to the references, messages of every pool size accepted under every pool size; (d) re-creating a persistent tree right after drop (10/50 times) and with the storage lock held 0/20/100 ms: state intact, time within the retry ladder's bound; states = distinct (call, result) outcomes observed under the baton scheduler"));
+        ev.set("rule", json!("(a) loom explores every schedule with at most P preemptions (3 quick / 4 thorough) of pmtree's real batch_insert / batch_recalculate (source copied from the registry, std::sync -> loom::sync, rayon::join -> loom threads) for every (depth <= 2, start, length, empty/prefilled tree): root and all leaves must equal the sequential reference on every schedule, no deadlock; (b) baton scheduler: K real threads on one shared Arc<RLN>, exactly one runnable at a time, hand-over at API-call boundaries; all assignments of calls x all interleavings (2 threads x 2 calls over 6 (quick) / 8 (thorough) calls; thorough also 3 threads x 2 calls over 3 calls): each call must return what it returns alone, which must equal the reference; (c) the same workload in subprocesses with RAYON_NUM_THREADS in {1,2,4,16} (thorough: {1,2,3,4,5,6,8,16}): batch roots, witnesses, public values and verdicts bit-identical and equal to the references, messages of every pool size accepted under every pool size; (d) re-creating a persistent tree right after drop (10/50 times) and with the storage lock held 0/20/100 ms: state intact, time within the retry ladder's bound; states = distinct (call, result) outcomes observed under the baton scheduler"));
         for s in loom_samples {
             ev.sample(s);
         }
